@@ -683,12 +683,30 @@ func c12OrderAndPresence(c *Ctx, toFns, fromFns []*ssa.Function) {
 				return
 			}
 			n++
+			// what is delivered here (the stored value, the setter's argument)
+			var delivered []string
+			switch x := in.(type) {
+			case *ssa.Store:
+				delivered = append(delivered, fl.K.Key(x.Val))
+			case *ssa.Call:
+				for _, a := range x.Call.Args[1:] {
+					delivered = append(delivered, fl.K.Key(a))
+				}
+			}
 			for f := range facts {
 				if f.Op == "after" {
 					continue
 				}
 				if !presenceLike(f, isTo) {
 					bad = append(bad, p.InstrPos(in)+": "+f.String())
+				}
+				// the polarity of the presence test: a part converted exactly when it is absent is a part lost in transit
+				if f.Op == "==" && oneIsNil(f) && len(nonNil(f)) > 6 {
+					for _, dk := range delivered {
+						if strings.Contains(dk, nonNil(f)) {
+							bad = append(bad, p.InstrPos(in)+": converted under "+f.String()+", that is, only when the part is absent")
+						}
+					}
 				}
 			}
 			// and the other way round (a condition joined with || or negated leaves no must-fact at the store): every
